@@ -54,6 +54,13 @@ CHECKS = {
              "operands kept in order; variables equal.",
         technique="TLA+ reference grammar + exact field semantics; TLC exhaustive token strings; TLC trace validation of real parse calls",
         ref="5/C03"),
+    "C09": dict(
+        text="Session.tla is the state machine of a rewriting session (start, current term, exactness) whose step relation is the relational contract. Real sessions "
+             "with one persistent set of rule objects - every two-step script from 50 seed expressions/equations and seeded random walks of up to 30 steps, each step on "
+             "node.clone_from_root() of the current root - are recorded with the session's whole object universe re-snapshotted after every step; TLC follows every trace "
+             "step by step: continuity, well-formedness, prints and re-parses, same value / solution set as the START, same variables, no earlier state altered, no raise.",
+        technique="TLA+ session state machine; stateful TLC trace validation of multi-step rewrite sessions",
+        ref="5/C09"),
     "C10": dict(
         text="Same PARSE traces judged by the error-contract clauses (exception class in the documented set, ValueError for unsupported characters, "
              "returned trees well formed with correct arity, termination under a watchdog) over valid, invalid, truncated, mutated, soup, long-chain "
